@@ -1,83 +1,245 @@
+// C16 harness: VRF proofs are complete, mutation-proof and survive header transport.
+//
+// Runs the real implementation (vrf.VRFGenProve / VRFVerify / VRFProof2Hash, the big.Int round trip
+// of CastBlock/verifyBlockVRF, ConsensusHelperImpl.VRFProve2Value, logical.validateProve through the
+// verif export, ed25519 internals through the H5 export) and
+//
+//	(a) evaluates the property directly: completeness, determinism, all single-bit mutations of
+//	    proof / message / public key, transport (incl. proofs whose encoding starts with zero
+//	    bytes), output uniqueness against an adversarial prover that shifts Gamma by a small-order
+//	    point, and the range of the quality number over a stake x height x value grid;
+//	(b) writes transport / qualification / isCanonical cases with the observed outputs for the Coq
+//	    model (coq/C16/Harness.v).
 package main
 
 import (
 	"bytes"
+	"crypto/sha256"
 	"encoding/hex"
 	"fmt"
 	"math/big"
+	"time"
 
 	"com.tuntun.rangers/node/src/common"
 	"com.tuntun.rangers/node/src/common/ed25519"
 	"com.tuntun.rangers/node/src/common/ed25519/edwards25519"
+	"com.tuntun.rangers/node/src/consensus"
+	"com.tuntun.rangers/node/src/consensus/groupsig"
 	"com.tuntun.rangers/node/src/consensus/logical"
 	"com.tuntun.rangers/node/src/consensus/model"
 	"com.tuntun.rangers/node/src/consensus/vrf"
 	"verif/harness/hx"
 )
 
-func main() {
-	r := hx.NewRng(1)
-	fmt.Println("param before", model.Param.MaxQN, common.LocalChainConfig.Proposal025Block, common.GetRewardBlocks())
-	model.Param.MaxQN = 5
-	model.Param.PotentialProposal = 3
-	model.Param.PotentialProposalMax = 5
-	model.Param.PotentialProposalIndex = 20
-	// 1. isCanonical
-	var nc [32]byte
-	for i := range nc {
-		nc[i] = 0xff
+var (
+	res    *hx.Result
+	cs     *hx.Cases
+	max256 = new(big.Int).Sub(new(big.Int).Lsh(big.NewInt(1), 256), big.NewInt(1))
+	helper = consensus.NewConsensusHelper(groupsig.ID{})
+)
+
+func hexs(b []byte) string { return hex.EncodeToString(b) }
+
+func id(parts ...[]byte) string {
+	h := sha256.New()
+	for _, p := range parts {
+		h.Write(p)
+		h.Write([]byte{0xfe})
 	}
-	nc[0] = 0xee
-	nc[31] = 0x7f
-	fmt.Println("isCanonical(noncanon identity)=", ed25519.VerifIsCanonical(nc))
-	var P edwards25519.ExtendedGroupElement
-	fmt.Println("stringToPoint noncanon:", ed25519.VerifStringToPoint(&P, nc))
-	var allff [32]byte
-	for i := range allff {
-		allff[i] = 0xff
+	return hexs(h.Sum(nil)[:12])
+}
+
+func zlit(z *big.Int) string { return "(" + z.String() + ")%Z" }
+func ulit(u uint64) string   { return fmt.Sprintf("%d%%Z", u) }
+
+// ---- guarded calls ----
+func verify(pk vrf.VRFPublicKey, pi vrf.VRFProve, m []byte) (ok bool, err error, panicked interface{}) {
+	defer func() {
+		if r := recover(); r != nil {
+			panicked = r
+		}
+	}()
+	ok, err = vrf.VRFVerify(pk, pi, m)
+	return
+}
+
+func verifyClass(pk vrf.VRFPublicKey, pi vrf.VRFProve, m []byte) string {
+	ok, err, p := verify(pk, pi, m)
+	switch {
+	case p != nil:
+		return "panic"
+	case ok:
+		return "accept"
+	case err == ed25519.ErrDecodeError:
+		return "decode-error"
+	case err != nil:
+		return "error"
 	}
-	fmt.Println("stringToPoint allff:", ed25519.VerifStringToPoint(&P, allff))
-	// 2. qn
-	max256, _ := new(big.Int).SetString("ffffffffffffffffffffffffffffffffffffffffffffffffffffffffffffffff", 16)
-	v := new(big.Int).Mul(max256, big.NewInt(3))
-	v.Div(v, big.NewInt(10))
-	for j := 0; j < 4; j++ {
-		pb := make([]byte, 80)
-		vb := v.Bytes()
-		copy(pb[32-len(vb):32], vb)
-		ok, qn := logical.VerifVRFValidateProve(vrf.VRFProve(pb), 1, 0, 10)
-		var g [32]byte
-		copy(g[:], pb[:32])
-		fmt.Println("v=", hex.EncodeToString(pb[:32]), "ok", ok, "qn", qn, "validpoint", ed25519.VerifStringToPoint(&P, g))
-		v.Sub(v, big.NewInt(1))
+	return "reject"
+}
+
+func validate(pi []byte, h, wm, ts uint64) (ok bool, qn uint64, panicked interface{}) {
+	defer func() {
+		if r := recover(); r != nil {
+			panicked = r
+		}
+	}()
+	ok, qn = logical.VerifVRFValidateProve(vrf.VRFProve(pi), h, wm, ts)
+	return
+}
+
+func helperValue(b *big.Int) (v *big.Int) {
+	defer func() {
+		if r := recover(); r != nil {
+			v = big.NewInt(-1)
+		}
+	}()
+	return helper.VRFProve2Value(b)
+}
+
+func padded(pi []byte) []byte {
+	if len(pi) >= ed25519.ProveSize {
+		return pi
 	}
-	ok, qn := logical.VerifVRFValidateProve(vrf.VRFProve(bytes.Repeat([]byte{0xff}, 80)), 1, 0, 4)
-	fmt.Println("allff ts=4", ok, qn)
-	// 3. adversarial
-	pk, sk, _ := vrf.VRFGenerateKey(bytes.NewReader(r.Bytes(32)))
-	m := r.Bytes(32)
-	pi, _ := vrf.VRFGenProve(pk, sk, m)
-	okv, err := vrf.VRFVerify(pk, pi, m)
-	fmt.Println("honest verify", okv, err)
+	p := make([]byte, ed25519.ProveSize)
+	copy(p[ed25519.ProveSize-len(pi):], pi)
+	return p
+}
+
+func leadingZeros(b []byte) int {
+	n := 0
+	for n < len(b) && b[n] == 0 {
+		n++
+	}
+	return n
+}
+
+// ---- transport of one proof (real or synthetic) ----
+func transportCase(pk vrf.VRFPublicKey, pi []byte, m []byte, honest bool, origin string) {
+	bi := vrf.VRFProve(pi).Big() // CastBlock: pi.Big()
+	carried := bi.Bytes()        // verifyBlockVRF: bh.ProveValue.Bytes()
+	lz := leadingZeros(pi)
+	c1 := verifyClass(pk, vrf.VRFProve(pi), m)
+	c2 := verifyClass(pk, vrf.VRFProve(carried), m)
+	class := fmt.Sprintf("transport:%s:lz%d:%s", origin, min(lz, 3), c1)
+	res.Count(class, id([]byte("T"), pk, pi, m), lz > 0)
+	in := map[string]interface{}{"pk": hexs(pk), "proof": hexs(pi), "msg": hexs(m), "carried": hexs(carried)}
+	if c1 != c2 {
+		res.Violate(fmt.Sprintf("C16/transport:verify-changed-lz%d", min(lz, 3)),
+			fmt.Sprintf("VRFVerify gives %s on the proof and %s on big.Int(proof).Bytes()", c1, c2), in)
+	}
+	if honest && c2 != "accept" {
+		res.Violate("C16/transport:honest-proof-rejected", "honest proof rejected after the big.Int round trip: "+c2, in)
+	}
+	if len(pi) == ed25519.ProveSize && !bytes.Equal(padded(carried), pi) {
+		res.Violate("C16/transport:padding", "left-padding the carried bytes to 80 does not restore the proof", in)
+	}
+	value := vrf.VRFProof2Hash(vrf.VRFProve(padded(pi))).Big()
+	hv := helperValue(bi)
+	if len(carried) >= 32 && hv.Cmp(value) != 0 {
+		res.Violate("C16/transport-output:VRFProve2Value-unpadded",
+			fmt.Sprintf("ConsensusHelperImpl.VRFProve2Value(header value) = %x but VRFProof2Hash(proof) = %x", hv, value), in)
+	}
+	// the qualification rule must not notice the transport either
+	ok1, q1, p1 := validate(pi, 1, 0, 10)
+	ok2, q2, p2 := validate(carried, 1, 0, 10)
+	if ok1 != ok2 || q1 != q2 || (p1 == nil) != (p2 == nil) {
+		res.Violate("C16/transport:qn-changed", fmt.Sprintf("validateProve (%v,%d) before, (%v,%d) after transport", ok1, q1, ok2, q2), in)
+	}
+	cs.Add(fmt.Sprintf("CT %s %s %s %s", hx.CoqHex(pi), hx.CoqHex(carried), zlit(value), zlit(hv)),
+		map[string]interface{}{"kind": "transport", "origin": origin, "in": in})
+	if lz > 0 {
+		res.Sample(map[string]interface{}{"kind": "transport", "leading_zero_bytes": lz, "proof": hexs(pi), "carried_len": len(carried), "verify_after": c2})
+	}
+}
+
+// ---- mutations ----
+func flip(b []byte, bit int) []byte {
+	c := append([]byte{}, b...)
+	c[bit/8] ^= 1 << uint(bit%8)
+	return c
+}
+
+func mutate(pk vrf.VRFPublicKey, pi []byte, m []byte, bitsProof, bitsMsg, bitsPk []int) int {
+	n := 0
+	rep := func(part string, bit int, pk2 vrf.VRFPublicKey, pi2, m2 []byte) {
+		n++
+		ok, _, p := verify(pk2, vrf.VRFProve(pi2), m2)
+		in := map[string]interface{}{"pk": hexs(pk), "proof": hexs(pi), "msg": hexs(m), "mutated": part, "bit": bit}
+		if p != nil {
+			res.Violate("C16/mutation-panic:"+part, fmt.Sprintf("VRFVerify panicked on a mutant: %v", p), in)
+		} else if ok {
+			res.Violate("C16/mutation-accepted:"+part, "a single-bit mutant verifies", in)
+		}
+	}
+	for _, b := range bitsProof {
+		part := "proof-gamma"
+		if b >= 48*8 {
+			part = "proof-s"
+		} else if b >= 32*8 {
+			part = "proof-c"
+		}
+		rep(part, b, pk, flip(pi, b), m)
+	}
+	for _, b := range bitsMsg {
+		rep("message", b, pk, pi, flip(m, b))
+	}
+	for _, b := range bitsPk {
+		rep("pubkey", b, vrf.VRFPublicKey(flip(pk, b)), pi, m)
+	}
+	return n
+}
+
+func allBits(n int) []int {
+	r := make([]int, n)
+	for i := range r {
+		r[i] = i
+	}
+	return r
+}
+func someBits(r *hx.Rng, n, k int) []int {
+	if n == 0 {
+		return nil
+	}
+	o := make([]int, k)
+	for i := range o {
+		o[i] = r.Intn(n)
+	}
+	return o
+}
+
+// ---- adversarial prover: Gamma' = Gamma - T for a small-order T, own nonce until c*T = 0 ----
+type torsion struct {
+	name string
+	enc  string
+	mask byte
+}
+
+var torsions = []torsion{
+	{"order2", "ecffffffffffffffffffffffffffffffffffffffffffffffffffffffffffff7f", 1},
+	{"order4", "0000000000000000000000000000000000000000000000000000000000000000", 3},
+	{"order8", "26e8958fc2b227b045c3f489f2ef98f0d5dfac05d3c63339b13802886d53fc05", 7},
+}
+
+func shiftedProof(r *hx.Rng, pk vrf.VRFPublicKey, sk vrf.VRFPrivateKey, m []byte, t torsion) ([]byte, bool) {
 	x, _ := ed25519.VerifExpandSecret(ed25519.PrivateKey(sk))
 	h := ed25519.VerifHashToCurve(m, ed25519.PublicKey(pk))
 	var H, T edwards25519.ExtendedGroupElement
 	H.FromBytes(&h)
-	gamma := edwards25519.GeScalarMult(&H, x)
-	var t2 [32]byte
-	for i := range t2 {
-		t2[i] = 0xff
+	var tb [32]byte
+	b, _ := hex.DecodeString(t.enc)
+	copy(tb[:], b)
+	if !T.FromBytes(&tb) {
+		return nil, false
 	}
-	t2[0] = 0xec
-	t2[31] = 0x7f
-	fmt.Println("T decode", T.FromBytes(&t2))
+	gamma := edwards25519.GeScalarMult(&H, x)
 	var tc edwards25519.CachedGroupElement
 	T.ToCached(&tc)
 	var cp edwards25519.CompletedGroupElement
 	edwards25519.GeSub(&cp, gamma, &tc)
 	var g2 edwards25519.ExtendedGroupElement
 	cp.ToExtended(&g2)
-	for try := 0; try < 20; try++ {
+	for try := 0; try < 400; try++ {
 		var kin [64]byte
 		copy(kin[:], r.Bytes(64))
 		var k [32]byte
@@ -86,18 +248,480 @@ func main() {
 		edwards25519.GeScalarMultBase(&kB, &k)
 		kH := edwards25519.GeScalarMult(&H, &k)
 		c := ed25519.VerifHashPoints(H, g2, kB, *kH)
-		if c[0]&1 != 0 {
+		if c[0]&t.mask != 0 {
 			continue
 		}
-		var cs, s, gb [32]byte
-		copy(cs[:], c[:])
-		edwards25519.ScMulAdd(&s, &cs, x, &k)
+		var cs32, s, gb [32]byte
+		copy(cs32[:], c[:])
+		edwards25519.ScMulAdd(&s, &cs32, x, &k)
 		g2.ToBytes(&gb)
-		pi2 := append(append(append([]byte{}, gb[:]...), c[:]...), s[:]...)
-		ok2, err2 := vrf.VRFVerify(pk, vrf.VRFProve(pi2), m)
-		fmt.Println("try", try, "shifted verify", ok2, err2)
-		fmt.Println(" out1", hex.EncodeToString(vrf.VRFProof2Hash(pi)))
-		fmt.Println(" out2", hex.EncodeToString(vrf.VRFProof2Hash(vrf.VRFProve(pi2))))
-		break
+		pi := append(append(append([]byte{}, gb[:]...), c[:]...), s[:]...)
+		return pi, true
+	}
+	return nil, false
+}
+
+// ---- the qualification grid ----
+func exactQn(v *big.Int, h, wm, ts uint64, thr uint64) (ok bool, qn int64, nearBelow bool) {
+	// independent exact-arithmetic evaluation of the rule (big.Int only); qn = -1: division by zero,
+	// -2: outside the range where the float path is defined (negative stake numerator)
+	if ts == 0 {
+		return false, 0, false
+	}
+	idx := uint64(model.Param.PotentialProposalIndex)
+	pp := ts * idx / 100
+	if pp < model.Param.PotentialProposal {
+		pp = model.Param.PotentialProposal
+	}
+	if pp > model.Param.PotentialProposalMax {
+		pp = model.Param.PotentialProposalMax
+	}
+	d := uint64(1)
+	if wm != 0 && h > thr {
+		d = ts / wm
+	}
+	snum := big.NewInt(int64(d * pp))
+	f := float64(ts)
+	sden, _ := new(big.Float).SetFloat64(f).Int(nil)
+	ok = new(big.Int).Mul(v, sden).Cmp(new(big.Int).Mul(snum, max256)) < 0
+	cn, cd := snum, sden
+	if snum.Cmp(sden) > 0 {
+		cn, cd = big.NewInt(1), big.NewInt(1)
+	}
+	if cn.Sign() == 0 {
+		return ok, -1, false
+	}
+	if cn.Sign() < 0 {
+		return ok, -2, false
+	}
+	num := new(big.Int).Mul(new(big.Int).Mul(v, big.NewInt(int64(model.Param.MaxQN))), cd)
+	den := new(big.Int).Mul(max256, cn)
+	q := new(big.Int).Div(num, den)
+	q.Add(q, big.NewInt(1)) // floor + 1 = the next integer above ratio/step
+	if !q.IsInt64() {
+		return ok, -2, false
+	}
+	// is ratio/step within 2^-50 (relative) below that integer? only then may float64 rounding reach it
+	gap := new(big.Int).Sub(new(big.Int).Mul(q, den), num)
+	nearBelow = new(big.Int).Lsh(gap, 50).Cmp(new(big.Int).Mul(q, den)) < 0
+	return ok, q.Int64(), nearBelow
+}
+
+var zeroRatioPanics int
+
+func isPoint(v32 []byte) bool {
+	var s [32]byte
+	copy(s[:], v32)
+	var p edwards25519.ExtendedGroupElement
+	return ed25519.VerifStringToPoint(&p, s)
+}
+
+func qnCase(v *big.Int, tail []byte, h, wm, ts, thr uint64, tag string) {
+	vb := v.Bytes()
+	pi := make([]byte, 32, 80)
+	copy(pi[32-len(vb):], vb)
+	pi = append(pi, tail...)
+	send := pi
+	if tag == "stripped" {
+		send = new(big.Int).SetBytes(pi).Bytes()
+	}
+	ok, qn, p := validate(send, h, wm, ts)
+	eok, eq, near := exactQn(v, h, wm, ts, thr)
+	maxqn := uint64(model.Param.MaxQN)
+	in := map[string]interface{}{"value": hexs(pi[:32]), "proof": hexs(send), "height": h, "workingMiners": wm, "totalStake": ts,
+		"value_is_curve_point": isPoint(pi[:32]), "exact_qn": eq}
+	class := "qn:rejected"
+	nontrivial := false
+	qz := new(big.Int).SetUint64(qn)
+	switch {
+	case p != nil:
+		class = "qn:panic"
+		qz = big.NewInt(-1)
+		nontrivial = true
+		if ts != 0 && eq != -1 {
+			res.Violate("C16/qn-total:panic", fmt.Sprintf("validateProve panicked: %v", p), in)
+		} else {
+			zeroRatioPanics++
+		}
+	case ok:
+		nontrivial = true
+		class = fmt.Sprintf("qn:accepted:%d", min(int(qn), int(maxqn)+2))
+		if qn < 1 || qn > maxqn {
+			in["ok"], in["qn"] = ok, qn
+			switch {
+			case eq == int64(maxqn) && qn == maxqn+1 && near:
+				res.Violate("C16/qn-range:float-rounding",
+					fmt.Sprintf("validateProve accepts and returns qn=%d (MaxQN=%d); exact arithmetic gives %d: Float64(ratio/step) rounded up", qn, maxqn, eq), in)
+			case v.Cmp(max256) == 0:
+				res.Violate("C16/qn-range:max-value",
+					fmt.Sprintf("validateProve accepts value ff..ff with stake ratio > 1 and returns qn=%d (MaxQN=%d)", qn, maxqn), in)
+			default:
+				res.Violate("C16/qn-range:other", fmt.Sprintf("accepted with qn=%d outside 1..%d (exact %d)", qn, maxqn, eq), in)
+			}
+		}
+		if ok != eok {
+			res.Violate("C16/qn-ok:differs-from-exact", "ok flag differs from the exact-arithmetic comparison", in)
+		}
+		// inside the range the float path may only differ from the exact rule by rounding up onto the next step
+		if eq >= 0 && int64(qn) != eq && !(int64(qn) == eq+1 && near) {
+			in["ok"], in["qn"] = ok, qn
+			res.Violate("C16/qn-value:differs-from-exact", fmt.Sprintf("accepted with qn=%d, the exact rule floor(ratio/step)+1 gives %d", qn, eq), in)
+		} else if eq >= 0 && int64(qn) == eq+1 {
+			class += ":rounded-up"
+		}
+	}
+	if p == nil && ok2det(send, h, wm, ts, ok, qn) {
+		res.Violate("C16/qn-function:nondeterministic", "two evaluations of validateProve on equal arguments differ", in)
+	}
+	res.Count(class, id([]byte("Q"), send, []byte(fmt.Sprint(h, wm, ts))), nontrivial)
+	if class == "qn:accepted:6" || class == "qn:panic" {
+		res.Sample(map[string]interface{}{"kind": "qn", "in": in, "ok": ok, "qn": qz.String()})
+	}
+	pterm := fmt.Sprintf("(P %d %d %d %d %s)", model.Param.MaxQN, model.Param.PotentialProposal, model.Param.PotentialProposalMax,
+		model.Param.PotentialProposalIndex, ulit(thr))
+	cs.Add(fmt.Sprintf("CQ %s %s %s %s %s %s %s (%d)%%Z", pterm, hx.CoqHex(send), ulit(h), ulit(wm), ulit(ts), hx.CoqBool(ok), zlit(qz), eq),
+		map[string]interface{}{"kind": "qn", "tag": tag, "in": in, "ok": ok, "qn": qz.String()})
+}
+
+func ok2det(pi []byte, h, wm, ts uint64, ok bool, qn uint64) bool {
+	ok2, qn2, p := validate(pi, h, wm, ts)
+	return p != nil || ok2 != ok || qn2 != qn
+}
+
+func min(a, b int) int {
+	if a < b {
+		return a
+	}
+	return b
+}
+
+func main() {
+	a := hx.ParseArgs()
+	r := hx.NewRng(a.Seed)
+	thorough := a.Tier == "thorough"
+	res = hx.NewResult("a VRF case counts when the honest proof verified and its mutants were evaluated; a transport case counts when " +
+		"the proof encoding starts with >= 1 zero byte; an adversarial case counts when a shifted proof was built; a qn case counts when " +
+		"validateProve accepted or panicked; an isCanonical case counts when the input is a non-reduced encoding")
+	cs = hx.NewCases(a.Out, "From V.C16 Require Import Model Harness.", "case", "check", 300)
+
+	// real configuration: dev chain config, consensus parameters through InitParam
+	common.Init(0, "c16.ini", "dev")
+	logical.InitConsensus()
+	thr := common.LocalChainConfig.Proposal025Block + common.GetRewardBlocks()
+	res.Note(fmt.Sprintf("params: MaxQN=%d PotentialProposal=%d..%d index=%d difficulty switch above height %d",
+		model.Param.MaxQN, model.Param.PotentialProposal, model.Param.PotentialProposalMax, model.Param.PotentialProposalIndex, thr))
+	if model.Param.MaxQN < 1 {
+		res.Violate("C16/qn-range:config", "MaxQN < 1", nil)
+	}
+
+	// ---------- 1. honest proofs: completeness, determinism, mutations, transport ----------
+	t0 := time.Now()
+	fullSweeps := 12
+	if thorough {
+		fullSweeps = 150
+	}
+	mutants := 0
+	type kp struct {
+		pk vrf.VRFPublicKey
+		sk vrf.VRFPrivateKey
+	}
+	var keys []kp
+	for i := 0; i < a.N; i++ {
+		pk, sk, err := vrf.VRFGenerateKey(bytes.NewReader(r.Bytes(32)))
+		if err != nil {
+			panic(err)
+		}
+		keys = append(keys, kp{pk, sk})
+		var m []byte
+		switch r.Intn(6) {
+		case 0:
+			m = r.Bytes(r.Intn(5)) // may be empty
+		case 1:
+			m = r.Bytes(33 + r.Intn(100))
+		default:
+			m = logical.VerifVRFGenVrfMsg(r.Bytes(32), 1+r.Intn(3)) // what the node signs: a hash chain over Random
+		}
+		in := map[string]interface{}{"pk": hexs(pk), "sk_seed": hexs(sk[:32]), "msg": hexs(m)}
+		pi, err := vrf.VRFGenProve(pk, sk, m)
+		if err != nil || len(pi) != ed25519.ProveSize {
+			res.Violate("C16/complete:prove-failed", fmt.Sprintf("VRFGenProve failed: %v (len %d)", err, len(pi)), in)
+			res.Count("vrf:prove-failed", id(pk, m), false)
+			continue
+		}
+		in["proof"] = hexs(pi)
+		pi2, _ := vrf.VRFGenProve(pk, sk, m)
+		if !bytes.Equal(pi, pi2) {
+			res.Violate("C16/deterministic:prove", "two VRFGenProve calls on equal inputs differ", in)
+		}
+		cl := verifyClass(pk, pi, m)
+		if cl != "accept" {
+			res.Violate("C16/complete:honest-proof-rejected", "VRFVerify on the honest proof: "+cl, in)
+			res.Count("vrf:honest-rejected", id(pk, m), false)
+			continue
+		}
+		if !bytes.Equal(vrf.VRFProof2Hash(pi), pi[:32]) || len(vrf.VRFProof2Hash(pi)) != 32 {
+			res.Violate("C16/output:shape", "VRFProof2Hash is not a 32-byte value", in)
+		}
+		var n int
+		if i < fullSweeps {
+			n = mutate(pk, pi, m, allBits(640), allBits(8*len(m)), allBits(256))
+			res.Count("vrf:honest+all-bit-mutants", id(pk, m), true)
+		} else {
+			n = mutate(pk, pi, m, append(someBits(r, 640, 10), 255, 256, 383, 384, 639), someBits(r, 8*len(m), 4), append(someBits(r, 256, 4), 255))
+			res.Count("vrf:honest+sampled-mutants", id(pk, m), true)
+		}
+		mutants += n
+		transportCase(pk, pi, m, true, "honest")
+		if i < 3 {
+			res.Sample(map[string]interface{}{"kind": "vrf", "in": in, "verify": cl, "mutants_rejected": n})
+		}
+	}
+	res.Note(fmt.Sprintf("%d single-bit mutants evaluated (%d full sweeps of all 640+|m|+256 bits) in %.1fs", mutants, min(fullSweeps, a.N), time.Since(t0).Seconds()))
+
+	// ---------- 2. search for honest proofs whose encoding starts with zero bytes ----------
+	t0 = time.Now()
+	tries, want1, want2 := 4000, 6, 0
+	if thorough {
+		tries, want1, want2 = 400000, 40, 1
+	}
+	found := map[int]int{}
+	used := 0
+	for i := 0; i < tries && (found[1] < want1 || found[2] < want2); i++ {
+		k := keys[i%len(keys)]
+		m := r.Bytes(32)
+		pi, err := vrf.VRFGenProve(k.pk, k.sk, m)
+		used++
+		if err != nil || pi[0] != 0 {
+			continue
+		}
+		lz := leadingZeros(pi)
+		found[min(lz, 2)]++
+		if lz == 1 && found[1] > want1 {
+			continue
+		}
+		transportCase(k.pk, pi, m, true, "honest-search")
+		mutants += mutate(k.pk, new(big.Int).SetBytes(pi).Bytes(), m, someBits(r, 8*(80-lz), 12), someBits(r, 256, 2), someBits(r, 256, 2))
+	}
+	res.Note(fmt.Sprintf("leading-zero search: %d proofs generated, %d with one leading zero byte, %d with two or more (%.1fs)", used, found[1], found[2], time.Since(t0).Seconds()))
+	if found[1]+found[2] == 0 {
+		res.Note("no honest proof with a leading zero byte found in this run; synthetic transport cases still cover the path")
+	}
+
+	// ---------- 3. synthetic transport cases: arbitrary 80-byte strings with 0..80 leading zero bytes ----------
+	nsyn := 150
+	if thorough {
+		nsyn = 1500
+	}
+	for i := 0; i < nsyn; i++ {
+		k := keys[r.Intn(len(keys))]
+		pi := r.Bytes(80)
+		z := []int{0, 1, 1, 2, 3, 5, 31, 32, 33, 47, 48, 49, 79, 80}[r.Intn(14)]
+		for j := 0; j < z; j++ {
+			pi[j] = 0
+		}
+		if i%7 == 0 { // a real Gamma with a zeroed prefix is not a point any more; also try honest proofs with zeroed tails
+			h, _ := vrf.VRFGenProve(k.pk, k.sk, []byte{byte(i)})
+			copy(pi, h)
+			for j := 80 - z; j < 80 && j >= 0; j++ {
+				pi[j] = 0
+			}
+		}
+		transportCase(k.pk, pi, []byte{byte(i)}, false, "synthetic")
+	}
+
+	// ---------- 4. adversarial prover: small-order shift of Gamma ----------
+	nadv := 25
+	if thorough {
+		nadv = 300
+	}
+	for i := 0; i < nadv && i < len(keys); i++ {
+		k := keys[i]
+		m := r.Bytes(32)
+		honest, _ := vrf.VRFGenProve(k.pk, k.sk, m)
+		for _, t := range torsions {
+			pi, ok := shiftedProof(r, k.pk, k.sk, m, t)
+			if !ok {
+				res.Count("adversarial:"+t.name+":not-built", id(k.pk, m, []byte(t.name)), false)
+				continue
+			}
+			cl := verifyClass(k.pk, pi, m)
+			same := bytes.Equal(vrf.VRFProof2Hash(pi), vrf.VRFProof2Hash(honest))
+			res.Count(fmt.Sprintf("adversarial:%s:%s:same-output=%v", t.name, cl, same), id(k.pk, m, pi), true)
+			in := map[string]interface{}{"pk": hexs(k.pk), "sk_seed": hexs(k.sk[:32]), "msg": hexs(m), "honest_proof": hexs(honest), "shifted_proof": hexs(pi),
+				"small_order_point": t.enc, "honest_output": hexs(vrf.VRFProof2Hash(honest)), "shifted_output": hexs(vrf.VRFProof2Hash(pi))}
+			if cl == "accept" && !same {
+				res.Violate("C16/output-unique:small-order-shift",
+					"two proofs accepted for one key and message carry different VRFProof2Hash outputs (Gamma shifted by a point of "+t.name+")", in)
+				if i == 0 {
+					res.Sample(map[string]interface{}{"kind": "adversarial", "in": in, "verify": cl})
+				}
+				// the two outputs also give different qualification results
+				o1, q1, _ := validate(honest, 1, 0, 10)
+				o2, q2, _ := validate(pi, 1, 0, 10)
+				if o1 != o2 || q1 != q2 {
+					res.Count("adversarial:qualification-differs", id(k.pk, m, pi, []byte("q")), true)
+				}
+			}
+		}
+	}
+
+	// ---------- 5. qualification rule over a stake x height x value grid ----------
+	maxqn := int64(model.Param.MaxQN)
+	stakes := []uint64{0, 1, 2, 3, 4, 5, 6, 10, 14, 15, 16, 20, 24, 25, 26, 30, 99, 100, 1000, 12345, 1000000, 1<<53 - 1, 1 << 53, 1<<53 + 1, 1<<53 + 3, 1 << 63, 1<<64 - 1}
+	nq := 700
+	if thorough {
+		nq = 9000
+	}
+	tail := make([]byte, 48)
+	for i := 0; i < nq; i++ {
+		var ts uint64
+		if r.Intn(4) == 0 {
+			ts = r.U64() >> uint(r.Intn(64))
+		} else {
+			ts = stakes[r.Intn(len(stakes))]
+		}
+		var wm uint64
+		switch r.Intn(8) {
+		case 0:
+			wm = 0
+		case 1:
+			wm = ts
+		case 2:
+			wm = ts + 1 // difficulty 0 above the switch height
+		case 3:
+			wm = uint64(r.Intn(1000)) + 1
+		default:
+			wm = uint64(r.Intn(7)) + 1
+		}
+		h := []uint64{0, 1, thr - 1, thr, thr + 1, thr + 1, thr + 12345, 1<<64 - 1}[r.Intn(8)]
+		// the threshold value for this stake ratio, from the exact rule
+		_, _ = h, wm
+		idx := uint64(model.Param.PotentialProposalIndex)
+		pp := ts * idx / 100
+		if pp < model.Param.PotentialProposal {
+			pp = model.Param.PotentialProposal
+		}
+		if pp > model.Param.PotentialProposalMax {
+			pp = model.Param.PotentialProposalMax
+		}
+		d := uint64(1)
+		if wm != 0 && h > thr {
+			d = ts / wm
+		}
+		var v *big.Int
+		snum := int64(d * pp)
+		sden, _ := new(big.Float).SetFloat64(float64(ts)).Int(nil)
+		mode := r.Intn(10)
+		switch {
+		case mode == 0 || ts == 0 || snum <= 0:
+			v = new(big.Int).SetBytes(r.Bytes(32))
+			if r.Intn(4) == 0 {
+				v.Rsh(v, uint(r.Intn(256)))
+			}
+		case mode == 1:
+			v = []*big.Int{big.NewInt(0), big.NewInt(1), new(big.Int).Set(max256), new(big.Int).Sub(max256, big.NewInt(1)), new(big.Int).Sub(max256, big.NewInt(2))}[r.Intn(5)]
+		default:
+			// j/maxqn of the (clamped) stake ratio, +- a small delta: the qn steps and the acceptance threshold
+			cn, cd := big.NewInt(snum), sden
+			if cn.Cmp(cd) > 0 {
+				cn, cd = big.NewInt(1), big.NewInt(1)
+			}
+			j := int64(r.Intn(int(maxqn) + 1))
+			if r.Intn(3) == 0 {
+				j = maxqn
+			}
+			v = new(big.Int).Mul(max256, cn)
+			v.Mul(v, big.NewInt(j))
+			v.Div(v, new(big.Int).Mul(cd, big.NewInt(maxqn)))
+			delta := big.NewInt(int64(r.Intn(5)) - 3)
+			if r.Intn(3) == 0 {
+				delta.Lsh(big.NewInt(1), uint(140+r.Intn(80)))
+				delta.Neg(delta)
+			}
+			v.Add(v, delta)
+			if v.Sign() < 0 {
+				v.SetInt64(0)
+			}
+			if v.Cmp(max256) > 0 {
+				v.Set(max256)
+			}
+		}
+		tag := "grid"
+		tl := tail
+		if r.Intn(10) == 0 {
+			tl = r.Bytes(48)
+		}
+		if r.Intn(12) == 0 {
+			tag = "stripped"
+		}
+		qnCase(v, tl, h, wm, ts, thr, tag)
+	}
+	// fixed replay of the model's witnesses and a boundary value that is a valid curve point
+	qnCase(new(big.Int).Div(new(big.Int).Mul(max256, big.NewInt(3)), big.NewInt(10)), tail, 1, 0, 10, thr, "witness-float")
+	qnCase(new(big.Int).Set(max256), bytes.Repeat([]byte{0xff}, 48), 1, 0, 2, thr, "witness-maxvalue")
+	{
+		v := new(big.Int).Div(new(big.Int).Mul(max256, big.NewInt(3)), big.NewInt(10))
+		for j := 0; j < 200; j++ {
+			vb := make([]byte, 32)
+			v.FillBytes(vb)
+			if isPoint(vb) {
+				qnCase(v, tail, 1, 0, 10, thr, "witness-float-curve-point")
+				break
+			}
+			v.Sub(v, big.NewInt(1))
+		}
+	}
+
+	if zeroRatioPanics > 0 {
+		res.Note(fmt.Sprintf("validateProve panicked (big.Rat division by zero in calQn) on %d grid points with totalStake < workingMiners above the difficulty "+
+			"switch height (difficulty 0, stake ratio 0); not counted as a violation: the registry keeps totalStake >= workingMiners", zeroRatioPanics))
+	}
+
+	// ---------- 6. isCanonical ----------
+	ncan := 60
+	for i := 0; i < ncan; i++ {
+		var s [32]byte
+		copy(s[:], r.Bytes(32))
+		nonred := false
+		switch i % 4 {
+		case 1: // y = p + small: non-reduced
+			for j := range s {
+				s[j] = 0xff
+			}
+			s[0] = 0xed + byte(r.Intn(19))
+			s[31] = 0x7f | byte(r.Intn(2))<<7
+			nonred = true
+		case 2: // y = p - 1 - small: reduced
+			for j := range s {
+				s[j] = 0xff
+			}
+			s[0] = 0xec - byte(r.Intn(20))
+			s[31] = 0x7f
+		}
+		got := ed25519.VerifIsCanonical(s)
+		class := fmt.Sprintf("canonical:reduced:%d", got)
+		if nonred {
+			class = fmt.Sprintf("canonical:non-reduced:%d", got)
+		}
+		res.Count(class, id([]byte("C"), s[:]), nonred)
+		cs.Add(fmt.Sprintf("CC %s %d%%N", hx.CoqHex(s[:]), got), map[string]interface{}{"kind": "canonical", "s": hexs(s[:]), "isCanonical": got, "non_reduced": nonred})
+	}
+	{
+		var s [32]byte
+		for j := range s {
+			s[j] = 0xff
+		}
+		if ed25519.VerifIsCanonical(s) == 1 && isPoint(s[:]) {
+			res.Note("isCanonical(ff..ff) = 1 and stringToPoint accepts it: the uint8-typed (c-1)>>8 and (0xed-1-s[0])>>8 are always 0 " +
+				"(Coq: C16_is_canonical_go_const), so non-reduced Gamma/y encodings decode; this is what makes the value ff..ff reachable for validateProve")
+		}
+	}
+
+	cs.Close()
+	res.ModelCases = cs.Total()
+	res.Write(a.Out)
+	fmt.Printf("c16: evaluations=%d distinct_nontrivial=%d model_cases=%d violations=%d\n", res.Evaluations, res.DistinctNontrivial, res.ModelCases, len(res.Violations))
+	for k, v := range res.Histogram {
+		fmt.Printf("  %-60s %d\n", k, v)
 	}
 }
